@@ -66,6 +66,8 @@ struct Model {
     flag: bool,       // operator member / trusted chain set / P2 is minter
     budget: u8,       // bounded counters: rotations, payouts, mints
     epoch: usize,
+    /// gateway: the minimum rotation delay has passed since the last rotation (or the deployment)
+    elapsed: bool,
 }
 
 struct Ctx {
@@ -208,7 +210,7 @@ impl Scenario for C06 {
         p.push(target.clone());
         (
             Ctx { w, kind: c, target, twin, p, keys, asset, probe },
-            Model { advances: 0, owner: 0, operator: 1, window: false, flag: false, budget: 3, epoch: 1 },
+            Model { advances: 0, owner: 0, operator: 1, window: false, flag: false, budget: 3, epoch: 1, elapsed: false },
         )
     }
 
@@ -219,7 +221,7 @@ impl Scenario for C06 {
         }
         for ep in self.eps(ctx.kind) {
             // payouts, mints and rotations are bounded so that the state space stays finite
-            if m.budget == 0 && matches!(ep, Ep::RotateBypass | Ep::RotateBypassOld | Ep::CollectFees | Ep::Refund | Ep::Mint) {
+            if m.budget == 0 && matches!(ep, Ep::RotateBypass | Ep::RotateBypassOld | Ep::RotateEarlyNoBypass | Ep::CollectFees | Ep::Refund | Ep::Mint) {
                 continue;
             }
             if ep == Ep::RotateBypassOld && m.epoch < 2 {
@@ -243,7 +245,10 @@ impl Scenario for C06 {
             out.kind = "advance";
             out.accepted = true;
             w.set_seq(w.seq() + 20);
-            w.set_time(w.now() + 100);
+            // on the gateway exactly the minimum rotation delay passes: from then until the next
+            // rotation (bypassed or not) anybody may rotate with a proof of the latest set
+            w.set_time(w.now() + if ctx.kind == 0 { 100_000 } else { 100 });
+            m.elapsed = true;
             m.advances += 1;
             return;
         }
@@ -264,7 +269,8 @@ impl Scenario for C06 {
         };
         out.accepted = call.ok;
         let authorised = a.by == By::P(holder);
-        let want = authorised && pre;
+        // a rotation without bypass needs nobody's authorisation, only the elapsed delay
+        let want = if a.ep == Ep::RotateEarlyNoBypass { m.elapsed } else { authorised && pre };
         out.expect(call.ok == want, "admin.outcome", || {
             format!(
                 "{}: {:?} by {:?} (role holder {}, owner {}, operator {}, precondition {}): ok={} ({}), model {}",
@@ -298,8 +304,7 @@ impl Scenario for C06 {
             }
             Ep::Upgrade => m.window = true,
             Ep::Migrate => m.window = false,
-            Ep::RotateBypass | Ep::RotateBypassOld => { m.budget -= 1; m.epoch += 1; }
-            Ep::RotateEarlyNoBypass => {}
+            Ep::RotateBypass | Ep::RotateBypassOld | Ep::RotateEarlyNoBypass => { m.budget -= 1; m.epoch += 1; m.elapsed = false; }
             Ep::CollectFees | Ep::Refund | Ep::Mint => m.budget -= 1,
             Ep::AddOperator | Ep::SetTrusted => m.flag = true,
             Ep::RemoveOperator | Ep::RemoveTrusted => m.flag = false,
@@ -364,7 +369,7 @@ fn main() {
         let mut o = Opts::new(tier, if tier == "thorough" { 14 } else { 9 });
         o.min_depth = 4;
         o.xcheck = tier == "thorough";
-        o.rule = "per contract (gateway, gas service, operators, ITS, interchain token): every administrative entry point (ownership / operatorship transfer to a successor, to self and back, to the all-zero account and to the contract itself (after which every administrative call is refused for every authoriser); upgrade; migrate; operator-bypass rotation with a proof from the latest and from an older retained set; a non-bypass rotation before the minimum delay (refused for every authoriser); collect_fees; refund; add/remove operator; set/remove trusted chain; add/remove minter; owner mint; set_admin) x every candidate authoriser {initial owner, initial operator/collector, successor/beneficiary, stranger, nobody, the current holder signing altered arguments, the current holder authorising the same call on a twin contract}; all histories to fixpoint (payouts / mints / rotations bounded to 3); role queries and the affected configuration compared after every new state".into();
+        o.rule = "per contract (gateway, gas service, operators, ITS, interchain token): every administrative entry point (ownership / operatorship transfer to a successor, to self and back, to the all-zero account and to the contract itself (after which every administrative call is refused for every authoriser); upgrade; migrate; operator-bypass rotation with a proof from the latest and from an older retained set; a non-bypass rotation (refused for every authoriser until the minimum delay has passed since the last rotation of either kind, accepted for every authoriser afterwards); collect_fees; refund; add/remove operator; set/remove trusted chain; add/remove minter; owner mint; set_admin) x every candidate authoriser {initial owner, initial operator/collector, successor/beneficiary, stranger, nobody, the current holder signing altered arguments, the current holder authorising the same call on a twin contract}; all histories to fixpoint (payouts / mints / rotations bounded to 3); role queries and the affected configuration compared after every new state".into();
         (C06, o)
     });
 }
